@@ -173,6 +173,27 @@ def run(tier, seed, replay=None):
     if len(pairs) > (15000 if tier == "quick" else 120000):
         pairs = rnd.sample(pairs, 15000 if tier == "quick" else 120000)
     pairs += [(a, a) for a in sample]
+    # near-miss pairs: the same element sequence as a proper and as an improper list, one element
+    # changed / dropped / swapped, nesting, a compound with the same fields
+    def rlist(d):
+        es = [rnd.choice(atoms) if d == 0 or rnd.random() < 0.7 else rlist(d - 1) for _ in range(rnd.randint(1, 4))]
+        return es
+    def as_term(es, improper):
+        es = [as_term(e, rnd.random() < 0.3) if isinstance(e, list) and (not e or not isinstance(e[0], str) or e[0] not in ("s", "c")) else e for e in es]
+        if improper and len(es) >= 2:
+            return ["ilist"] + es
+        return ["list"] + es
+    for _ in range(250 if tier == "quick" else 3000):
+        es = rlist(2)
+        a = as_term(es, False)
+        vs = [as_term(es, True), as_term(es[:-1], False), as_term(es[:-1], True), as_term(list(reversed(es)), False),
+              as_term(es + [rnd.choice(atoms)], True), as_term([es], False), as_term(es[:1] + [rnd.choice(atoms)] + es[2:], False),
+              ["cons", a, "nil"], ["ilist"] + [a, a], a]
+        if len(es) == 2:
+            vs.append(["comp", "Pair", a[1], a[2]])
+        for b in vs:
+            pairs.append((a, b))
+            pairs.append((b, rnd.choice(vs)))
     for a, b in pairs:
         cases.append(("eq", a, b))
     for _ in range(600 if tier == "quick" else 5000):
